@@ -201,7 +201,7 @@ func genTable(r *rand.Rand, idx int, srs srsSpec) tableSpec {
 	var attrs []colSpec
 	types := []string{"INTEGER", "MEDIUMINT", "REAL", "DOUBLE", "TEXT", "TEXT(20)", "DATETIME", "DATETIME", "DATE", "TIMESTAMP"}
 	for i := 0; i < nattr; i++ {
-		attrs = append(attrs, colSpec{Name: fmt.Sprintf("%s%d", []string{"a", "naam", "Col_", "v"}[r.Intn(4)], i), Type: types[r.Intn(len(types))], NotNull: r.Intn(5) == 0})
+		attrs = append(attrs, colSpec{Name: fmt.Sprintf("%s%d", []string{"a", "naam", "Col_", "v", "a", "naam", "hoogte_m²_", "straße", "étages", "opp\u00a0m"}[r.Intn(10)], i), Type: types[r.Intn(len(types))], NotNull: r.Intn(5) == 0})
 	}
 	g := colSpec{Name: t.GCol, Type: t.GType}
 	// positions: the geometry column first / middle / last, the key first (usual) or elsewhere
@@ -814,7 +814,7 @@ func runC12(c *hc.Ctx) error {
 		"features satisfy the table's constraints (NOT NULL, unique key), as rows read from a source table with the same constraints do",
 		"values match the declared column affinity (SQLite would convert them otherwise, also in a source table)",
 		"coordinates are integers below 2^23 in absolute value (exact in float64 and in the rtree's float32)",
-		"column names need no quoting; column defaults / CHECK / UNIQUE constraints are not part of 'columns' (createSQL copies name, type, NOT NULL, PRIMARY KEY only)",
+		"column names are legal bare SQLite identifiers (ASCII letters, digits, underscore, characters above U+007F such as ², ß, é, no-break space); column defaults / CHECK / UNIQUE constraints are not part of 'columns' (createSQL copies name, type, NOT NULL, PRIMARY KEY only)",
 		"single-column integer primary key (a GeoPackage requirement)",
 		"the source's srs rows have a non-NULL description (getSpatialReferenceSystem reads NULL as the empty string, which is what the target then holds)",
 	}
